@@ -137,7 +137,7 @@ def _work(ctx: Ctx, item):
             ctx.sample({"mode": mode, "entries": entries, "frames": len(items), "dropped": dropped, "kept": kept})
         return res
 
-    ctx.hyp(one, configs(pgns, ids), traffic.history(twins=True, time_passes=True, commanded=True), st.booleans(), max_examples=n, name="filters")
+    ctx.hyp(one, configs(pgns, ids), traffic.history(twins=True, time_passes=True, commanded=True, repeat_seq=True), st.booleans(), max_examples=n, name="filters")
 
 
 def _twins(ctx: Ctx, item):
@@ -159,22 +159,26 @@ def _twins(ctx: Ctx, item):
             nb2 = max(nb, d2.nbytes())
             if db.select(pgn, p1) is not d1 or db.select(pgn, p2) is not d2:
                 continue
-            items = []
-            dest = 255 if ((pgn >> 8) & 0xFF) >= 240 else 7
-            for rep, (dd, pp, nn) in enumerate(((d1, p1, nb), (d2, p2, nb2), (d1, p1, nb), (d2, p2, nb2))):
-                payload = pp.to_bytes(nn, "little")[:223]
-                if dd.fast:
-                    items += [{"kind": "fastframe", "pgn": pgn, "src": 1, "dest": dest, "data": fr, "msg": rep, "frame": i}
-                              for i, fr in enumerate(wire.segment(payload, rep))]
-                else:
-                    items.append({"kind": "single", "pgn": pgn, "src": 1, "dest": dest, "data": payload[:8], "msg": rep})
-            for mode, entries in (("exclude", [d1.id]), ("exclude", [d2.id.upper()]), ("include", [d2.id]), ("include", [d1.id.lower(), 127250])):
-                ctx.count()
-                n += 1
-                ctx.nt((pgn, d1.id, d2.id, mode))
-                res, dropped, kept = run_case(mode, entries, items)
-                for b, w, c in res:
-                    ctx.report(b + "|twins", w, c)
+            for same_seq in (False, True):
+                # (same_seq: a sender that restarts between its messages - every message carries sequence counter 5)
+                items = []
+                dest = 255 if ((pgn >> 8) & 0xFF) >= 240 else 7
+                for rep, (dd, pp, nn) in enumerate(((d1, p1, nb), (d2, p2, nb2), (d1, p1, nb), (d2, p2, nb2))):
+                    payload = pp.to_bytes(nn, "little")[:223]
+                    if dd.fast:
+                        items += [{"kind": "fastframe", "pgn": pgn, "src": 1, "dest": dest, "data": fr, "msg": rep, "frame": i}
+                                  for i, fr in enumerate(wire.segment(payload, 5 if same_seq else rep))]
+                    else:
+                        items.append({"kind": "single", "pgn": pgn, "src": 1, "dest": dest, "data": payload[:8], "msg": rep})
+                if same_seq and not any(dd.fast for dd in (d1, d2)):
+                    continue
+                for mode, entries in (("exclude", [d1.id]), ("exclude", [d2.id.upper()]), ("include", [d2.id]), ("include", [d1.id.lower(), 127250])):
+                    ctx.count()
+                    n += 1
+                    ctx.nt((pgn, d1.id, d2.id, mode))
+                    res, dropped, kept = run_case(mode, entries, items)
+                    for b, w, c in res:
+                        ctx.report(b + "|twins", w, c)
     ctx.klass("systematic_twin_cases", n)
 
 
